@@ -2,6 +2,8 @@ import Srtla.Lemmas.ForwardRun
 import Srtla.Lemmas.SendAll
 import Srtla.Lemmas.RunLevelGhost
 import Srtla.Lemmas.RunLevelGhostReload
+import Srtla.Lemmas.ProbeRateReload
+import Srtla.Lemmas.AccountingReload
 import Srtla.Lemmas.SysDir
 import Srtla.Lemmas.SysInvQual
 import Srtla.Props.C03
@@ -1189,5 +1191,143 @@ example :
   decide +kernel
 
 end reloadExamples
+
+/-! ## 13. Probe rate BY CONN ID, over runs WITH reloads (round 8)
+
+`C01_probe_rate` counts by link INDEX and keeps `NoReload`.  `Lemmas/ProbeRateReload.lean` reads the three quantities
+by CONN ID: `probeCopiesId s evs c` / `gatedRoutedId s evs c` sum, event by event, the index quantities of ONE event
+(`probeCopies s [ev] i`, `gatedRouted s [ev] i`) at the index `i` the link with conn id `c` has in the state the run
+had reached (`idxOfId`; nothing while no link carries `c`), and `probeCounterId s c` is that link's counter (0 while
+absent). -/
+
+section probeRateById
+open Srtla.Props.SysReload
+
+/-- **At most one duplicate per 100 routed data packets per gated uplink, by conn id, over ANY run** — reloads
+included; hypotheses `Inv` of the start state and `FreshRun` (as `Inv_run_reload`), no `NoReload`.  For every conn
+id `c`: `100 × (probe copies queued on the link with conn id c) + its final probe counter ≤ (data packets routed to
+another link while it was stall-gated and connected) + its initial probe counter`, each quantity read at the index
+the link has at that moment (0 while no link carries `c`).  A reload consults no counter and queues no copy; a
+retained link keeps its counter wherever its index moves; a created link starts at 0, so counted from its creation
+`100 × probes + counter ≤ routed-while-gated`; a removed link stops counting. -/
+theorem C01_probe_rate_by_id (s : Sys F) (hinv : Inv s) (evs : List Ev) (hf : FreshRun s evs) (c : Nat) :
+    100 * probeCopiesId s evs c + probeCounterId (run s evs).1 c ≤ gatedRoutedId s evs c + probeCounterId s c :=
+  run_probe_rate_id s hinv evs hf c
+
+/-- What the by-id quantities are, one event at a time (definitional unfolding, stated for the reader): at the head
+event the index quantities of that ONE event at the current index of `c`, `0` if no link carries `c`; on a run
+without reloads from a state where `c` sits at index `i` they are the index quantities of `C01_probe_rate`. -/
+theorem C01_probe_rate_by_id_reading (s : Sys F) (ev : Ev) (evs : List Ev) (c : Nat) :
+    probeCopiesId s (ev :: evs) c =
+      (match idxOfId s c with | some i => probeCopies s [ev] i | none => 0) + probeCopiesId (step s ev).1 evs c ∧
+    gatedRoutedId s (ev :: evs) c =
+      (match idxOfId s c with | some i => gatedRouted s [ev] i | none => 0) + gatedRoutedId (step s ev).1 evs c ∧
+    probeCounterId s c = (match idxOfId s c with | some i => probeCounterOf s i | none => 0) ∧
+    (∀ i, idxOfId s c = some i → ∃ l, s.links[i]? = some l ∧ l.core.connId = c) ∧
+    (idxOfId s c = none → c ∉ ids s.links) :=
+  ⟨rfl, rfl, rfl, fun _ h => by obtain ⟨l, h1, h2, -⟩ := idxOfId_some h; exact ⟨l, h1, h2⟩, idxOfId_none⟩
+
+/-- **Hold time over runs WITH reloads** (`C01_hold` without `NoReload`): after every event list from a state
+satisfying `Inv`, reloads included (the drawn ids new: `FreshRun`), conn ids are still pairwise distinct and every
+queue holds fewer than 32 datagrams (a created link starts with the empty queue). -/
+theorem C01_hold_run_reload (s : Sys F) (h : Inv s) (evs : List Ev) (hf : FreshRun s evs) :
+    (ids (run s evs).1.links).Nodup ∧ ∀ l ∈ (run s evs).1.links, l.queue.length < 32 :=
+  ⟨(Inv_run_reload s h evs hf).nodup, (Inv_run_reload s h evs hf).hold⟩
+
+/-- **Exact accounting BY CONN ID over ANY run** (`C01_accounting` without `NoReload`; `Lemmas/AccountingReload.lean`).
+For every conn id `c`: (the queue the link with conn id `c` holds initially — `[]` if no link carries `c`) followed by
+(its arrival log `arrivalsId`: what the events append to the queue of the link that carries `c`, read at the index it
+has THEN) splits, IN ORDER, into the departed items followed by (the queue the link with conn id `c` holds at the
+end); every departed item carries one flag (`true` = put on the wire, `false` = discarded); and the wire log of the
+conn id (`wireLogId`: the data-path output to `c` while `c` names a present link) is exactly the `true` items, in
+order, byte for byte.  At a reload: a retained link keeps its queue (nothing departs); the queue of a REMOVED link
+departs flagged `false` — discarded with the link, the accounted additional discard cause; a created link starts
+empty. -/
+theorem C01_accounting_by_id (s : Sys F) (h : Inv s) (evs : List Ev) (hf : FreshRun s evs) (c : Nat) :
+    ∃ dep : List (QItem × Bool),
+      queueOfId s c ++ arrivalsId s evs c = dep.map (·.1) ++ queueOfId (run s evs).1 c ∧
+      Ghost.wireLogId s evs c = bytesOf ((dep.filter (·.2)).map (·.1)) :=
+  run_accounting_id s h evs hf c
+
+/-- **Intact, in order, at most once per conn id over ANY run** (`C01_intact_in_order` without `NoReload`): (the
+datagrams the data path put on the socket of conn id `c`, in order) followed by (the payloads the link with conn id
+`c` still holds at the end) is a SUBSEQUENCE of (the payloads it held initially) followed by (the client datagrams of
+the run, in arrival order). -/
+theorem C01_intact_in_order_by_id (s : Sys F) (h : Inv s) (evs : List Ev) (hf : FreshRun s evs) (c : Nat) :
+    (Ghost.wireLogId s evs c ++ bytesOf (queueOfId (run s evs).1 c)).Sublist
+      (bytesOf (queueOfId s c) ++ bytesOf (clientItems evs)) :=
+  run_sublist_id s h evs hf c
+
+end probeRateById
+
+section probeRateByIdExamples
+open Srtla.Props.SysReload
+
+/-- A fresh registering link `7@9` in FRONT of the two links of `exSysR` (`1@1`, and `3@2` with its probe counter at
+99). -/
+def exSysP : Sys Int :=
+  { exSys with links := [@FLink.newUplink Int fixScalar 7 9 0, { exLinkA with addr := 1 }, { exLinkB with addr := 2 }] }
+
+/-- The reload removes the link in front (address 9 no longer desired): links 1 and 3 slide from the indices 1, 2 to
+0, 1; address 4 is added (conn id 8).  Then one data packet: routed to link 1, link 3 is gated and its counter fires. -/
+def exEvsP : List Ev := [.reload 4990 [1, 2, 4] [some 8], .client 5000 exData]
+
+/-- The hypotheses hold, the run is NOT reload-free, conn id 3 moves from index 2 to index 1, and the bound is
+TIGHT across the reload: `100 · 1 + 0 ≤ 1 + 99` for conn id 3 — its counter 99 survived the reload at another index;
+the created link 8 starts at 0; the removed link 7 counts nothing. -/
+example :
+    @Inv Int exSysP ∧ @FreshRun Int fixScalar exSysP exEvsP ∧ ¬ NoReload exEvsP ∧
+    @idxOfId Int exSysP 3 = some 2 ∧ @idxOfId Int (@run Int fixScalar exSysP (exEvsP.take 1)).1 3 = some 1 ∧
+    (ids (@run Int fixScalar exSysP exEvsP).1.links) = [1, 3, 8] ∧
+    @probeCopiesId Int fixScalar exSysP exEvsP 3 = 1 ∧ @gatedRoutedId Int fixScalar exSysP exEvsP 3 = 1 ∧
+    @probeCounterId Int exSysP 3 = 99 ∧ @probeCounterId Int (@run Int fixScalar exSysP exEvsP).1 3 = 0 ∧
+    @probeCopiesId Int fixScalar exSysP exEvsP 8 = 0 ∧ @probeCounterId Int (@run Int fixScalar exSysP exEvsP).1 8 = 0 ∧
+    @probeCopiesId Int fixScalar exSysP exEvsP 7 = 0 ∧ @gatedRoutedId Int fixScalar exSysP exEvsP 7 = 0 :=
+  ⟨⟨by decide, by decide⟩, by decide +kernel, by decide, by decide +kernel, by decide +kernel, by decide +kernel,
+   by decide +kernel, by decide +kernel, by decide +kernel, by decide +kernel, by decide +kernel, by decide +kernel,
+   by decide +kernel, by decide +kernel⟩
+
+example (c : Nat) := @C01_probe_rate_by_id Int fixScalar exSysP ⟨by decide, by decide⟩ exEvsP (by decide +kernel) c
+
+example := @C01_probe_rate_by_id_reading Int fixScalar exSysP (.reload 4990 [1, 2, 4] [some 8]) [.client 5000 exData] 3
+
+/-- The by-id logs on the run `exEvsR` of section 12 (a reload REMOVES the uplink with conn id 1 while two datagrams
+are queued on it, keeps conn id 3 — which moves from index 1 to index 0 — and creates conn id 7): conn id 1 — both
+arrivals depart DISCARDED (nothing on its wire, nothing queued at the end: the link is gone); conn id 3 — its two
+arrivals (the probe copy before the reload, the control packet after it, at ANOTHER index) are both on its wire, in
+order; conn id 7 — nothing.  `Inv` / `FreshRun` of this run: the example of section 12. -/
+example :
+    @arrivalsId Int fixScalar exSysR exEvsR 1 = [(exCtl, none, 5000), (exData, some 5, 5001)] ∧
+    @Ghost.wireLogId Int fixScalar exSysR exEvsR 1 = [] ∧ @queueOfId Int (@run Int fixScalar exSysR exEvsR).1 1 = [] ∧
+    @idxOfId Int (@run Int fixScalar exSysR exEvsR).1 1 = none ∧
+    @arrivalsId Int fixScalar exSysR exEvsR 3 = [(exData, some 5, 5001), (exCtl, none, 5006)] ∧
+    @Ghost.wireLogId Int fixScalar exSysR exEvsR 3 = [exData, exCtl] ∧
+    @queueOfId Int (@run Int fixScalar exSysR exEvsR).1 3 = [] ∧
+    @idxOfId Int exSysR 3 = some 1 ∧ @idxOfId Int (@run Int fixScalar exSysR exEvsR).1 3 = some 0 ∧
+    @arrivalsId Int fixScalar exSysR exEvsR 7 = [] ∧ @Ghost.wireLogId Int fixScalar exSysR exEvsR 7 = [] ∧
+    ¬ NoReload exEvsR := by
+  refine ⟨?_, ?_, ?_, ?_, ?_, ?_, ?_, ?_, ?_, ?_, ?_, ?_⟩ <;> decide +kernel
+
+/-- The accounting equation of `C01_accounting_by_id` on that run, with its `dep` exhibited: conn id 1 — two
+departures flagged `false`; conn id 3 — two flagged `true`. -/
+example :
+    let dep1 : List (QItem × Bool) := [((exCtl, none, 5000), false), ((exData, some 5, 5001), false)]
+    let dep3 : List (QItem × Bool) := [((exData, some 5, 5001), true), ((exCtl, none, 5006), true)]
+    (@queueOfId Int exSysR 1 ++ @arrivalsId Int fixScalar exSysR exEvsR 1 =
+        dep1.map (·.1) ++ @queueOfId Int (@run Int fixScalar exSysR exEvsR).1 1 ∧
+      @Ghost.wireLogId Int fixScalar exSysR exEvsR 1 = bytesOf ((dep1.filter (·.2)).map (·.1))) ∧
+    (@queueOfId Int exSysR 3 ++ @arrivalsId Int fixScalar exSysR exEvsR 3 =
+        dep3.map (·.1) ++ @queueOfId Int (@run Int fixScalar exSysR exEvsR).1 3 ∧
+      @Ghost.wireLogId Int fixScalar exSysR exEvsR 3 = bytesOf ((dep3.filter (·.2)).map (·.1))) := by
+  refine ⟨⟨?_, ?_⟩, ⟨?_, ?_⟩⟩ <;> decide +kernel
+
+/-- Instances of the theorems on that run (hypotheses as in the example of section 12). -/
+theorem exEvsR_fresh : @FreshRun Int fixScalar exSysR exEvsR := by decide +kernel
+
+example (c : Nat) := @C01_accounting_by_id Int fixScalar exSysR ⟨by decide, by decide⟩ exEvsR exEvsR_fresh c
+example (c : Nat) := @C01_intact_in_order_by_id Int fixScalar exSysR ⟨by decide, by decide⟩ exEvsR exEvsR_fresh c
+example := @C01_hold_run_reload Int fixScalar exSysR ⟨by decide, by decide⟩ exEvsR exEvsR_fresh
+
+end probeRateByIdExamples
 
 end Srtla.Props.C01
